@@ -128,6 +128,15 @@ def count_bound(case, n_in, n_out, n_new):
     return None
 
 
+def count_key(case, n_in):
+    """Key of a gate-count excess.  The efficient XAIG weighted sum is known to exceed its documented 4.5n-2m on
+    sparse weight vectors from n = 25 on (known finding, see DESIGN.md): those share one key; anything else --
+    fewer than 25 operands, the AIG basis, the naive generator, the bit counts -- gets a key of its own."""
+    if case["fn"] in ("add_sum_n_weighted_bits", "generate_sum_weighted_bits_efficient") and not is_aig(case.get("basis", "enum:XAIG")) and n_in >= 25:
+        return "sum:add_sum_n_weighted_bits:XAIG:count-bound:n>=25"
+    return f"sum:{key_of(case)}:count-bound:n={n_in}"
+
+
 def key_of(case):
     k = [case["fn"]]
     if "basis" in case:
@@ -180,7 +189,8 @@ def check_case(p, case, rnd, timeout_ms=120000):
         probs.append(f"levels are not pairwise distinct: {[lev for lev, _ in outs]}")
     bound = count_bound(case, len(ins), len(outs), len(new))
     if bound is not None and len(new) > bound:
-        probs.append(f"{len(new)} gates added, documented bound is {bound}")
+        # reported under its own key; the sum identity below is decided regardless
+        p.violation(count_key(case, len(ins)), f"{desc}: ['{len(new)} gates added, documented bound is {bound}']", replay_src(case, host, {l: False for l in host.cut_assignment()}))
     assign = {}
     if not probs:
         zs = host.cut_assignment()
@@ -251,7 +261,8 @@ def check_generate(p, case):
         # the add_* form instead (same code path) and here only that the sum is *representable*:
         pass
     if probs:
-        p.violation(f"sum:{key_of(case)}:{probs[0].split(' ')[0]}", f"{case}: {probs[:3]}", src)
+        key = count_key(case, len(c.inputs)) if "documented bound" in probs[0] else f"sum:{key_of(case)}:{probs[0].split(' ')[0]}"
+        p.violation(key, f"{case}: {probs[:3]}", src)
 
 
 BASES = ["enum:XAIG", "enum:AIG", "XAIG", "AIG", "aig", "xaig"]
@@ -279,6 +290,12 @@ def make_cases(tier, rnd):
             cases.append(dict(fn="add_sum_two_numbers", widths=[n, n], host=hk, history="remove-and-call-again"))
         cases.append(dict(fn="add_sum_two_numbers", widths=[n, n], host="repeat2", alias=True))
         cases.append(dict(fn="add_sum_two_numbers_with_shift", widths=[n, n], shift=1, host="repeat2", alias=True))
+    # sparse weight vectors: a run of levels holding three bits each keeps the compression in its least economical regime
+    for profile in ([6, 3, 3, 3, 3, 3, 3, 1], [6, 3, 3, 3, 3, 3, 3, 3, 3, 3, 1], [6, 7, 1, 3, 7, 7, 4, 1, 1], [6, 3, 3, 3, 3, 1], [5, 3, 3, 3, 3, 3, 2]):
+        ws = [lev for lev, k in enumerate(profile) for _ in range(k)]
+        for basis in ("enum:XAIG", "xaig", "enum:AIG"):
+            cases.append(dict(fn="add_sum_n_weighted_bits", widths=[len(ws)], weights=ws, basis=basis, host="fresh", heavy=True))
+        cases.append(dict(fn="add_sum_n_weighted_bits_naive", widths=[len(ws)], weights=ws, basis="enum:XAIG", host="fresh", heavy=True))
     # bit counts
     ns = list(range(1, 13)) + [16, 24, 31, 32] if not thorough else list(range(1, 33))
     for n in ns:
@@ -361,7 +378,7 @@ def linear_unit(p, item, tier, seed):
               "print(got, want, n_new, b)\nsys.exit(1 if got != want or (b is not None and n_new > b) else 0)\n")
     n_inputs = sum(case["widths"])
     if structural:
-        p.violation(f"sum:{key_of(case)}:{structural[0].split(' ')[0]}:wide", f"{desc}: {structural}", replay.replace('@ASSIGN@', repr([False] * n_inputs)))
+        p.violation(count_key(case, stats["inputs"]), f"{desc}: {structural}", replay.replace('@ASSIGN@', repr([False] * n_inputs)))
         return
     if not hard:
         if p.canaries_run < 1 and stats["blocks"]:
